@@ -76,7 +76,7 @@ func NewRunner(
 // and cancel them.
 func (runner *Runner) Stop() {
 	jobrunner.Stop()
-	for _, v := range runner.raffle.runningJobs {
+	for _, v := range runner.raffle.getRunningJobs() {
 		v.cancel()
 	}
 }
